@@ -375,18 +375,19 @@ def run_bounded(ctx):
             for types in assignments:  # sorted and reversed type order (changes which names sort first)
                 for terms in _term_sets(nf, 4):
                     variant = rng.randrange(3)
+                    lim = 6 if len(terms) == 4 else None
                     if variant == 0:
-                        units.append((types, terms, seed, True, None, "numerical_factors", False, ("first", "off"), None))
+                        units.append((types, terms, seed, True, None, "numerical_factors", False, ("first", "off"), lim))
                     elif variant == 1:
-                        units.append((types, terms, seed, True, None, "none", True, ("last", "off"), None))
+                        units.append((types, terms, seed, True, None, "none", True, ("last", "off"), lim))
                     else:
-                        units.append((types, terms, seed, True, None, "numerical_factors", True, ("last", "first"), None))
+                        units.append((types, terms, seed, True, None, "numerical_factors", True, ("last", "first"), lim))
         with ctx.bounded(
             "rank-span-3factors-variants",
             rule="as above with cluster_by='numerical_factors' / reversed factor order inside terms / intercept written last",
             exhaustive=False,
-            bound="2-3 factors, all type multisets in ascending and in descending order, all term sets <=4 terms, every "
-                  "permutation; one of three option variants per term set (seeded)",
+            bound="2-3 factors, all type multisets in ascending and in descending order, all term sets <=3 terms with every "
+                  "permutation and all 4-term sets with 6 seeded permutations; one of three option variants per term set (seeded)",
         ) as b:
             _scope(ctx, b, units, True, "3factors-variants")
 
@@ -410,25 +411,26 @@ def run_bounded(ctx):
             _scope(ctx, b, units, False, "contrasts")
 
         # ---- scope 4: 4 factors.  The reduced/full decision depends only on which factors are categorical, so the
-        # kind patterns are enumerated exhaustively (2 levels each); level counts 1 and 3 get sampled orderings.
+        # categorical/numeric patterns are enumerated with 2-level factors (the mixed ones with every permutation);
+        # level counts 1 and 3 get sampled orderings.
         units = []
         all_terms = [fs for k in range(1, 5) for fs in itertools.combinations(range(4), k)]
-        for types in (("cat2", "cat2", "cat2", "cat2"), ("cat2", "cat2", "cat2", "num"), ("cat2", "cat2", "num", "num"),
-                      ("cat2", "num", "num", "num")):
+        for types, lim4 in ((("cat2", "cat2", "cat2", "num"), None), (("cat2", "cat2", "num", "num"), None),
+                            (("cat2", "cat2", "cat2", "cat2"), 4), (("cat2", "num", "num", "num"), 2)):
             for terms in _term_sets(4, 4):
-                units.append((types, terms, seed, False, None, "none", False, ("first", "off"), None))
+                units.append((types, terms, seed, False, None, "none", False, ("first", "off"), lim4 if len(terms) == 4 else None))
         with ctx.bounded(
             "rank-span-4factors-kinds-svd",
             rule="4 factors, every pattern of categorical(2 levels)/numeric with >= 1 categorical; SVD ranks as above",
-            exhaustive=True,
-            bound="4 factors (cccc, cccn, ccnn, cnnn), all term sets <=4 terms, every permutation, intercept first/absent",
+            exhaustive=False,
+            bound="4 factors; patterns cccn and ccnn: all term sets <=4 terms, every permutation; cccc / cnnn: all term sets <=3 "
+                  "terms with every permutation, 4-term sets with 4 / 2 seeded permutations; intercept first/absent",
         ) as b:
             _scope(ctx, b, units, False, "4factors-kinds")
 
         units = []
-        for types in (("cat1", "cat2", "cat3", "num"), ("cat1", "cat1", "cat2", "num"), ("cat1", "cat3", "cat3", "cat3"),
-                      ("cat1", "num", "num", "cat2"), ("cat3", "cat3", "cat2", "cat2"), ("cat3", "cat2", "num", "num"),
-                      ("cat3", "cat3", "cat3", "num"), ("num", "cat3", "cat1", "cat2")):
+        for types in (("cat1", "cat2", "cat3", "num"), ("cat1", "cat3", "cat3", "cat3"), ("cat3", "cat2", "num", "num"),
+                      ("num", "cat3", "cat1", "cat2")):
             for terms in _term_sets(4, 4):
                 units.append((types, terms, seed, False, None, "none", False, ("first", "off"), 2 if len(terms) == 4 else None))
             for _ in range(40):
@@ -438,7 +440,7 @@ def run_bounded(ctx):
             "rank-span-4factors-levels-svd",
             rule="4 factors with 1/2/3-level categoricals; SVD ranks as above",
             exhaustive=False,
-            bound="8 type tuples mixing 1, 2, 3 levels and numerics; all term sets <=3 terms with every permutation, all 4-term "
+            bound="4 type tuples mixing 1, 2, 3 levels and numerics; all term sets <=3 terms with every permutation, all 4-term "
                   "sets with 2 seeded permutations each, 40 seeded 5-term sets per type tuple with 6 permutations each; "
                   "intercept first/absent",
         ) as b:
